@@ -54,8 +54,7 @@ ATTR_SCALAR = set('shape size ndim dtype itemsize nbytes strides flags labels_ _
 ATTR_VIEW = set('T real imag flat base'.split())
 MODULE_ROOTS = {'np', 'sp', 'scipy', 'numpy', 'itertools', 'pickle', 'nb', 'os', 'math', 'time', 'functools'}
 IMPORTED_FUNCS = {'lu', 'solve_triangular', 'contract', 'tpc', 'reduce', 'dct', 'dst'}
-AT_LEAST_ONCE = re.compile(r'^(range\(1, d\)|range\(d\)|range\(d - 1, 0, -1\)|range\(d - 1, -1, -1\)|'
-                           r'range\(len\(Y\w*\)\)|range\(1, len\(Y\w*\)\)|Y\w*(\[1:\])?|n\[:-1\])$')
+AT_LEAST_ONCE = re.compile(r'^(range\(1, d\)|Y\w*\[1:\])$')      # rule 5, only where the unchanged code needs it
 
 BOT, KA, KLA, KL = 0, 1, 2, 3     # kinds: unknown-yet/number, ndarray, list of ndarrays, anything
 
@@ -174,6 +173,17 @@ class Package:
                 continue
             tree = ast.parse(open(p).read())
             self.modfuncs[mod], self.modclasses[mod] = {}, {}
+            if not hasattr(self, 'modnames'):
+                self.modnames = {}
+            self.modnames[mod] = set()
+            for n in ast.walk(tree):
+                if isinstance(n, (ast.Import, ast.ImportFrom)):
+                    self.modnames[mod] |= {(al.asname or al.name).split('.')[0] for al in n.names}
+            for n in tree.body:
+                if isinstance(n, (ast.FunctionDef, ast.ClassDef)):
+                    self.modnames[mod].add(n.name)
+                elif isinstance(n, ast.Assign):
+                    self.modnames[mod] |= {x.id for t in n.targets for x in ast.walk(t) if isinstance(x, ast.Name)}
             for n in tree.body:
                 if isinstance(n, ast.FunctionDef):
                     q = f'{mod}.{n.name}'
@@ -225,7 +235,7 @@ class Variant:
         self.nsites = 0
         self.varkind = {}      # var -> initial kind (params)
         self.retkind = BOT
-        self.wr, self.esc = set(), set()
+        self.wr0, self.wr, self.esc, self.sto = set(), set(), set(), set()
         self.unknown = []
 
 
@@ -786,6 +796,12 @@ class Tr:
                 return self.construct(self.pkg.modclasses[self.mod][nm], e, kw)
             if nm in IMPORTED_FUNCS:
                 return self.call_numpy(nm, e, kw)
+            import builtins
+            if not hasattr(builtins, nm) and nm not in self.pkg.modnames[self.mod]:
+                # neither local, nor module-level, nor builtin: evaluating it raises NameError, nothing else happens
+                self.gen.notes.append(f'{self.info.qual}:{e.lineno}: name {nm} is undefined (NameError at run time)')
+                self.args_eval(e.args, kw)
+                return []
             return self.call_builtin(nm, e, kw)
         if isinstance(f, ast.Attribute):
             if isinstance(f.value, ast.Name) and f.value.id == 'teneva' and self.cur.get('teneva') is None:
@@ -938,7 +954,7 @@ class Tr:
                 args += [list(a) for a in extra]
                 if len(args) < len(info.allparams):
                     args += [[] for _ in range(len(info.allparams) - len(args))]
-                alts.append([('def', x, ('call', self.newsite(), key, args))])
+                alts.append([('def', x, ('call', self.newsite(), self.newsite(), key, args))])
             node = alts[-1]
             for a in reversed(alts[:-1]):
                 node = [('if', a, node)]
@@ -1406,6 +1422,7 @@ class Gen:
         self.work = []
         self.lifted = {}        # qual -> FnInfo
         self.api = []           # (exported name, key)
+        self.notes = []
         self.uncovered = []
 
     # -- variants ---------------------------------------------------------------------------------------------------
@@ -1546,7 +1563,7 @@ class Gen:
                         elif t in ('cast', 'viewA'):
                             up(x, KA)
                         elif t == 'call':
-                            up(x, self.variants[e[2]].retkind)
+                            up(x, self.variants[e[3]].retkind)
                         elif t == 'callback':
                             up(x, KL)
                     elif n[0] in ('store?', 'store!'):
@@ -1642,7 +1659,7 @@ class Gen:
 
     # -- abstract analysis (computes the certificate) ------------------------------------------------------------
     def analyse(self, v):
-        """least certificate (env, cont, contp, E, W per call) for the current callee summaries"""
+        """least certificate (env, cont, contp, E, S, W per call) for the current callee summaries"""
         np_ = len(v.info.allparams)
         env = [set() for _ in range(v.nvars)]
         for p in range(np_):
@@ -1650,7 +1667,7 @@ class Gen:
         cont = [set() for _ in range(v.nsites)]
         contp, E = set(), set()
         W = {}
-        wr = set()
+        wr0, wr = set(), set()
 
         def elem(a):
             return cont[a[1]] if a[0] == 'S' else ({('I', a[1])} | contp)
@@ -1691,11 +1708,9 @@ class Gen:
                     add(cont[a[1]], vals)
                 else:
                     add(contp, vals)
-                    add(wr, {a[1]})
-        it = 0
+                    add(wr0 if a[0] == 'A' else wr, {a[1]})
         while changed:
             changed = False
-            it += 1
             for n in v.flat:
                 if n[0] == 'def':
                     x, e = n[1], n[2]
@@ -1707,46 +1722,58 @@ class Gen:
                     elif t == 'fresh':
                         add(env[x], {('S', e[1])})
                         add(cont[e[1]], avars(e[2]))
-                    elif t in ('call', 'callback'):
-                        s = e[1]
-                        if t == 'call':
-                            cal = self.variants[e[2]]
-                            cwr, cesc, args = cal.wr, cal.esc, e[3]
-                        else:
-                            args = e[2]
-                            cwr, cesc = set(), set(range(len(args)))
+                    elif t == 'callback':
+                        s, args = e[1], e[2]
                         A = {('S', s)} | cont[s]
-                        for p in cesc:
-                            if p < len(args):
-                                A |= avars(args[p])
+                        for a in args:
+                            A |= avars(a)
                         A = closure(A)
                         add(cont[s], A)
                         add(env[x], A)
-                        Wc = set()
-                        for p in cwr:
+                    elif t == 'call':
+                        sr, ss, cal, args = e[1], e[2], self.variants[e[3]], e[4]
+                        R = {('S', sr)} | cont[sr]
+                        for p in cal.esc:
                             if p < len(args):
-                                Wc |= avars(args[p])
-                        Wc = closure(Wc)
-                        W[id(n)] = Wc
-                        if cwr:
-                            store_into(Wc, A)
+                                R |= avars(args[p])
+                        R = closure(R)
+                        add(cont[sr], R)
+                        add(env[x], R)
+                        S = {('S', ss), ('S', sr)} | cont[ss]
+                        for p in cal.sto:
+                            if p < len(args):
+                                S |= avars(args[p])
+                        S = closure(S)
+                        add(cont[ss], S)
+                        Wd = set()
+                        for p in cal.wr:
+                            if p < len(args):
+                                Wd |= avars(args[p])
+                        Wd = closure(Wd)
+                        W[id(n)] = Wd
+                        tg = set(Wd)
+                        for p in cal.wr0:
+                            if p < len(args):
+                                tg |= avars(args[p])
+                        store_into(tg, S)
                 elif n[0] == 'store':
                     store_into(avars(n[1]), avars(n[2]))
                 elif n[0] == 'ret':
                     add(E, avars(n[1]))
-            add(E, contp)
             add(E, closure(E))
-        v.cert = dict(env=env, cont=cont, contp=contp, E=E, W=W)
+        Sx = closure(contp)
+        v.cert = dict(env=env, cont=cont, contp=contp, E=E, S=Sx, W=W)
         esc = {a[1] for a in E if a[0] != 'S'}
-        return wr, esc
+        sto = {a[1] for a in Sx if a[0] != 'S'}
+        return wr0, wr, esc, sto
 
     def summaries(self):
-        for rnd in range(50):
+        for rnd in range(60):
             ch = False
             for v in self.order:
-                wr, esc = self.analyse(v)
-                if wr != v.wr or esc != v.esc:
-                    v.wr, v.esc = wr, esc
+                new = self.analyse(v)
+                if new != (v.wr0, v.wr, v.esc, v.sto):
+                    v.wr0, v.wr, v.esc, v.sto = new
                     ch = True
             if not ch:
                 return
@@ -1774,10 +1801,11 @@ class Gen:
             v = self.variants[key]
             flags = dict(key[1])
             ps = v.info.allparams
-            bw = sorted(ps[p] for p in v.wr if not self.may_write(key[0], flags, ps[p]))
-            br = sorted(ps[p] for p in v.esc if not self.may_return(key[0], flags, ps[p]))
+            bw = sorted(ps[p] for p in v.wr0 | v.wr if not self.may_write(key[0], flags, ps[p]))
+            br = sorted({ps[p] for p in v.esc if not self.may_return(key[0], flags, ps[p])} |
+                        {ps[p] for p in v.sto if not (self.may_return(key[0], flags, ps[p]) or ps[p] in ('info', 'cache'))})
             out.append(dict(name=nm, qual=key[0], flags={k: str(x) for k, x in key[1]}, idx=v.idx,
-                            writes=sorted(ps[p] for p in v.wr), escapes=sorted(ps[p] for p in v.esc),
+                            writes=sorted(ps[p] for p in v.wr0 | v.wr), escapes=sorted(ps[p] for p in v.esc | v.sto),
                             bad_writes=bw, bad_escapes=br, unknown=list(v.unknown)))
         return out
 
@@ -1821,8 +1849,8 @@ class Gen:
                 elif k == 'fresh':
                     ex = f'EFresh {e[1]} {nl(e[2])}'
                 elif k == 'call':
-                    args = '[' + '; '.join(nl(a) for a in e[3]) + ']'
-                    ex = f'ECall {e[1]} {self.variants[e[2]].idx} {args} {aset(v.cert["W"].get(id(n), set()))}'
+                    args = '[' + '; '.join(nl(a) for a in e[4]) + ']'
+                    ex = f'ECall {e[1]} {e[2]} {self.variants[e[3]].idx} {args} {aset(v.cert["W"].get(id(n), set()))}'
                 elif k == 'callback':
                     args = '[' + '; '.join(nl(a) for a in e[2]) + ']'
                     ex = f'ECallback {e[1]} {args}'
@@ -1846,10 +1874,10 @@ class Gen:
             flags = '[' + '; '.join(f'({st(k)}, {st(str(x))})' for k, x in v.key[1]) + ']'
             params = '[' + '; '.join(st(p) for p in v.info.allparams) + ']'
             L.append(f'Definition f_{v.idx} : fn := mkfn {st(v.key[0])} {flags} {params}')
-            L.append(f'  {nl(sorted(v.wr))} {nl(sorted(v.esc))}')
+            L.append(f'  {nl(sorted(v.wr0))} {nl(sorted(v.wr))} {nl(sorted(v.esc))} {nl(sorted(v.sto))}')
             L.append('  [' + '; '.join(aset(A) for A in c['env']) + ']')
             L.append('  [' + '; '.join(aset(A) for A in c['cont']) + ']')
-            L.append(f'  {aset(c["contp"])} {aset(c["E"])}')
+            L.append(f'  {aset(c["contp"])} {aset(c["E"])} {aset(c["S"])}')
             L.append(f'  ({cmd(v.ir, v)}).')
         L.append('')
         L.append('Definition skel_prog : prog := [' + '; '.join(f'f_{v.idx}' for v in self.order) + '].')
